@@ -41,7 +41,7 @@ Print Assumptions C04_runs_only_appended.
 (* building chains and inspecting them (has_data, forcing without recomputation, fault toggles,
    restarts) runs nothing *)
 Theorem C04_inspection_runs_nothing : forall H wd run h o h' out,
-  (match o with OValue _ _ => False | OForceChain _ _ true _ => False | _ => True end) ->
+  (match o with OValue _ _ => False | OForceChain _ _ true _ => False | OForceMulti _ _ true _ => False | _ => True end) ->
   step H wd run h o = (h', out) -> w_runlog (h_world h') = w_runlog (h_world h).
 Proof. exact inspection_runs_nothing. Qed.
 Print Assumptions C04_inspection_runs_nothing.
